@@ -1,7 +1,7 @@
 def register(PROPS, HARNESS_PKGS):
     def g(**kw):
         p = {"Profiles": '{"auto", "streaming"}', "CTs": '{"text/event-stream"}', "Kinds": '{"flow"}',
-             "ChunkSizes": "{1, 1024}", "StallPoints": '{"prehdr", "headers", "chunk1"}'}
+             "ChunkSizes": "{1, 1024}", "StallPoints": '{"prehdr", "headers", "chunk1"}', "Routes": '{"proxy", "anthropic"}'}
         p.update(kw)
         return {"module": "StreamGen", "cfg": "Stream_gen.cfg", "params": p}
     allct = '{"text/event-stream", "application/x-ndjson", "application/json", "application/octet-stream"}'
@@ -10,8 +10,10 @@ def register(PROPS, HARNESS_PKGS):
         "mc": [{"module": "Stream", "cfg": "Stream_mc.cfg"}],
         "quick": {"gen": [g(Kinds='{"flow"}', CTs='{"text/event-stream", "application/json"}', ChunkSizes="{1, 1024, 65536}"),
                           g(Kinds='{"flow"}', Profiles='{"streaming", "standard"}', CTs='{"application/octet-stream"}', ChunkSizes="{1024}"),
+                          g(Kinds='{"tflow"}', Profiles='{"auto", "streaming"}'),
                           g(Kinds='{"stall", "abort", "pause"}', Profiles='{"auto"}')]},
         "thorough": {"gen": [g(Kinds='{"flow"}', Profiles='{"auto", "streaming", "standard"}', CTs=allct, ChunkSizes="{1, 1024, 65536, 262144}"),
+                             g(Kinds='{"tflow"}', Profiles='{"auto", "streaming", "standard"}'),
                              g(Kinds='{"stall", "abort", "pause"}', Profiles='{"auto", "streaming", "standard"}', CTs=allct)]},
         "pkg": "internal/app", "test": "TestVerif_Stream",
         "harness_files": ["stack_test.go", "stream_test.go"],
@@ -25,12 +27,12 @@ def register(PROPS, HARNESS_PKGS):
                  "nontrivial": lambda s: True})
     PROPS["C18"] = {
         "rule": "TLC enumerates streaming scenarios: causally gated flow (the backend writes chunk k+1 only after the "
-                "client acknowledged chunk k) x chunk size x content type x profile x engine; a stall after headers / after "
-                "the first chunk; a 300 ms pause; client abort at both points; each against the assembled server with "
+                "client acknowledged chunk k) x chunk size x content type x profile x engine, and the same on the translated Anthropic route (text deltas; the fragments of a tool call's arguments); a stall after headers / after "
+                "the first chunk; a 300 ms pause; client abort at each stall point and while the backend keeps sending, on the proxy route and on the translated Anthropic route; each against the assembled server with "
                 "read_timeout = 1 s; the harness measures (stuck?, whole?, elapsed ms, upstream closed?) and TLC checks "
                 "the measurements against Stream.tla's obligations with 3 s slack. Non-trivial = anything but 1-byte flow.",
         "exhaustive": True,
         "assumptions": ["timing margins: pause 300 ms vs timeout 1000 ms; a stall must end within 1000 + 3000 ms; cancellation within 3000 ms",
-                        "leak clause (part leak, one stack at a time): 20 aborted streams must not add 20 goroutines (runtime.NumGoroutine after quiescence, warm-up excluded)"],
+                        "leak clause (part leak, one stack at a time): 20 aborted streams (backend stalled / still sending; proxy route / translated Anthropic route) must not add 20 goroutines (runtime.NumGoroutine after quiescence, warm-up excluded)"],
         "parts": [part, leak],
     }
